@@ -285,14 +285,15 @@ def run(ctx: Ctx, repo: Repo, tier: str) -> None:
               "Union[...] admits each of its members; Dict[str, Union[..]] admits every str-keyed dict whose values are admitted")
     ctx.assume("merging of TypedDicts is decided exhaustively for <=3 TypedDicts over <=2 keys and limits 0..3; "
                "shrink_types for multisets of <=3 types from a 10-type alphabet")
-    rule_get_type(ctx, repo)
-    rule_dict_type(ctx, repo)
-    rule_shrink(ctx, repo, tier)
-    rule_merge(ctx, repo, tier)
-    rule_td_to_dict(ctx, repo)
+    ctx.attempt(rule_get_type, ctx, repo)
+    ctx.attempt(rule_dict_type, ctx, repo)
+    ctx.attempt(rule_shrink, ctx, repo, tier)
+    ctx.attempt(rule_merge, ctx, repo, tier)
+    ctx.attempt(rule_td_to_dict, ctx, repo)
     from .memo_rules import infer_no_memory
-    infer_no_memory(ctx, repo, "R-C04.6")
+    ctx.attempt(infer_no_memory, ctx, repo, "R-C04.6")
     from .compat_rules import compat_predicates
-    compat_predicates(ctx, repo, "R-C04.7", ("types_equal", "is_typed_dict", "is_any"))
+    ctx.attempt(compat_predicates, ctx, repo, "R-C04.7", ("types_equal", "is_typed_dict", "is_any"))
     if concrete_err is not None:
         raise concrete_err
+    ctx.settle()
